@@ -343,6 +343,44 @@ func c01KeyKindMaps() []any {
 	return out
 }
 
+// c01ElemKindContainers: maps, slices and arrays whose value / element type is a pointer to a
+// container or scalar (the compiler adjusts the pointer depth of elements in a routine of its own
+// per container kind), with nil and non-nil elements.
+func c01ElemKindContainers() []any {
+	m1 := map[string]int{"a": 1}
+	m2 := map[string]int{}
+	var mnil map[string]int
+	s1 := []int{1, 2}
+	var snil []int
+	a1 := [2]int{3, 4}
+	n := 5
+	str := "s"
+	st := struct{ A, B int }{1, 2}
+	pm1 := &m1
+	return []any{
+		map[string]*map[string]int{"x": &m1, "y": &m2, "z": nil, "w": &mnil},
+		map[string]**map[string]int{"x": &pm1, "z": nil},
+		map[int]*[]int{1: &s1, 2: &snil, 3: nil},
+		map[string]*[2]int{"a": &a1, "n": nil},
+		map[string]*int{"a": &n, "n": nil},
+		map[string]*string{"a": &str, "n": nil},
+		map[string]*struct{ A, B int }{"a": &st, "n": nil},
+		[]*map[string]int{&m1, nil, &m2, &mnil},
+		[]*[]int{&s1, nil, &snil},
+		[3]*map[string]int{&m1, nil, &mnil},
+		[2]*[2]int{&a1, nil},
+		map[string]map[string]*map[string]int{"o": {"x": &m1, "z": nil}},
+		struct {
+			M map[string]*map[string]int
+			L []*map[string]int
+			P *map[string]*map[string]int
+		}{M: map[string]*map[string]int{"x": &m1}, L: []*map[string]int{&m1}},
+		map[string]any{"m": map[string]*map[string]int{"x": &m1}, "l": []*[]int{&s1}},
+		map[string]*any{"n": nil},
+		map[string][]*map[string]int{"k": {&m1, nil}},
+	}
+}
+
 func c01Type(c *rt.Ctx, k int) (reflect.Type, string) {
 	o := gen.TypeOpts{FeatureProb: 30}
 	if c.Tier == "thorough" && k%2 == 1 {
@@ -472,6 +510,18 @@ func init() {
 						encCompare(c, 7100+si, "enc-diff", &encCfgs[ci], "direct", x, v.Type(), v, "")
 					}
 					c.NonTrivial("shadow", fmt.Sprintf("%T", x))
+				}
+			}
+			if c.Idx%64 == 15 {
+				for si, x := range c01ElemKindContainers() {
+					if !c.Cur(7500+si, fmt.Sprintf("shapes=core\ncontainers of pointers to containers: %T", x)) {
+						continue
+					}
+					v := reflect.ValueOf(x)
+					for ci := range encCfgs {
+						encCompare(c, 7500+si, "enc-diff", &encCfgs[ci], "direct", x, v.Type(), v, "")
+					}
+					c.NonTrivial("elemkind", fmt.Sprintf("%T", x))
 				}
 			}
 			if c.Idx%64 == 13 {
